@@ -207,6 +207,7 @@ def table : List Entry := [
   ⟨"dosnode.dispatchSign|close|close(out)#4", "made:out", .safe "channel life-cycle of dispatchSign and the collector is C14\'s (F15, repaired in aee7ef3): closed on exactly one of its exits"⟩,
   ⟨"dosnode.dispatchSign|close|close(out)#5", "made:out", .safe "channel life-cycle of dispatchSign and the collector is C14\'s (F15, repaired in aee7ef3): closed on exactly one of its exits"⟩,
   ⟨"dosnode.dispatchSign|close|close(out)#6", "made:out", .safe "channel life-cycle of dispatchSign and the collector is C14\'s (F15, repaired in aee7ef3): closed on exactly one of its exits"⟩,
+  ⟨"dosnode.dispatchSign|close|close(out)#7", "made:out", .safe "channel life-cycle of dispatchSign and the collector is C14\'s (F15, repaired in aee7ef3): closed on exactly one of its exits (7f58072: the exit without an own share closes and returns)"⟩,
   ⟨"dosnode.genQueryResult|close|close(errc)", "defer; made:errc", .guarded⟩,
   ⟨"dosnode.genQueryResult|close|close(out)", "defer; made:out", .guarded⟩,
   ⟨"dosnode.genSysRandom|close|close(out)", "defer; made:out", .guarded⟩,
